@@ -432,6 +432,8 @@ func main() {
 		c16Main(r)
 	case "C17":
 		c17Main(r)
+	case "C19":
+		c19Main(r)
 	default:
 		hx.EngineError("unknown -prop %s", *prop)
 	}
